@@ -138,7 +138,7 @@ def extract_all(pattern, folders, opts, unroll=2, by_path=False):
     decide(eng, harness, post, RC.inputs_of(sym, pattern, folders), r,
            describe=lambda o: o.get("exc") or "delivered %s" % sorted(X.delivered(o["world"]).keys()))
     r.note = (r.note + " cut_paths=%d" % eng.cut_paths).strip()
-    _cex(r, "extract_all", lambda w_: _replay_spec("extract", pattern, folders, opts, w_),
+    _cex(r, "extract_all", lambda w_: _replay_spec("extract", pattern, folders, opts, w_, by_path),
          signature=lambda w_: _sig("extract_all", pattern, folders, opts))
     return r
 
@@ -214,13 +214,14 @@ def concrete_case(pattern, folders, opts, witness):
     return img, entries, datas
 
 
-def _replay_spec(what, pattern, folders, opts, witness):
-    return dict(module="vf.props.c06", func="replay", kwargs=dict(what=what, pattern=pattern, folders=folders, opts=opts,
+def _replay_spec(what, pattern, folders, opts, witness, by_path=False):
+    return dict(module="vf.props.c06", func="replay", kwargs=dict(what=what, pattern=pattern, folders=folders, opts=opts, by_path=by_path,
                                                                   witness={k: int(v) for k, v in witness.items() if isinstance(v, int)}))
 
 
-def replay(what, pattern, folders, opts, witness, targets=None):
-    """open the concrete counterpart with the real library (BytesIO) and compare with the reference reader's view"""
+def replay(what, pattern, folders, opts, witness, targets=None, by_path=False):
+    """open the concrete counterpart with the real library (from a BytesIO, or by file name so that multi-folder
+    archives take the thread-parallel branch) and compare with the reference reader's view"""
     import py7zr
     from py7zr.io import BytesIOFactory
     from vf import ref7z
@@ -239,8 +240,16 @@ def replay(what, pattern, folders, opts, witness, targets=None):
             di += 1
         elif en["kind"] == "e":
             expect[en["name"]] = b""
+    import os
+    import tempfile
+
+    tmpd = tempfile.mkdtemp(prefix="vf_c06_") if by_path else None
     try:
-        z = py7zr.SevenZipFile(io.BytesIO(img))
+        if by_path:
+            open(os.path.join(tmpd, "a.7z"), "wb").write(img)
+            z = py7zr.SevenZipFile(os.path.join(tmpd, "a.7z"))
+        else:
+            z = py7zr.SevenZipFile(io.BytesIO(img))
         if what == "listing":
             for f, en, m in zip(z.list(), entries, mm):
                 if f.filename != en["name"] or f.uncompressed != m["size"] or f.is_directory != (en["kind"] == "d"):
@@ -261,6 +270,11 @@ def replay(what, pattern, folders, opts, witness, targets=None):
         return False, "extraction agrees"
     except Exception as e:  # noqa
         return True, "valid archive rejected / failed: %r" % (e,)
+    finally:
+        if tmpd:
+            import shutil
+
+            shutil.rmtree(tmpd, ignore_errors=True)
 
 
 # ------------------------------------------------------------------------------------------ units
